@@ -317,9 +317,11 @@ theorem cloneRegistry_lookup (cfg : Cfg) (hk : cfg.keepAllTypes = true) (s : Sch
 theorem refOK_lookup {reg : List (String × Addr)} {r : Ref} (h : refOK reg r = true) : lookup reg r.name = some r.addr := by
   simpa [refOK] using h
 
-/-- the state `clone()` hands to `fix_type_references` (registry entries replaced by the copies) is well-formed -/
-theorem clone_start_wfs (cfg : Cfg) (hd : cfg.deepClone = true) (s : Schema) (h : Heap) (hcl : closedB h s = true) (w : WFs (refOK s.types) h s) :
-    WFs (fun _ => true) (cloneDirs cfg (cloneTypes cfg h s.types).1 s.dirs).1
+/-- the state `clone()` hands to `fix_type_references` (registry entries replaced by the copies) is well-formed, and every
+    reference in it still passes any check the source's references passed -/
+theorem clone_start_wfs_gen (chk' : Ref → Bool) (cfg : Cfg) (hd : cfg.deepClone = true) (s : Schema) (h : Heap) (hcl : closedB h s = true) (w : WFs (refOK s.types) h s)
+    (hm : ∀ r, refOK s.types r = true → chk' r = true) :
+    WFs chk' (cloneDirs cfg (cloneTypes cfg h s.types).1 s.dirs).1
       (replaceCore cfg { types := cloneRegistry cfg s h, dirs := [], query := s.query, mutation := s.mutation, subscription := s.subscription, dres := none } (cloneTypes cfg h s.types).2 (cloneDirs cfg (cloneTypes cfg h s.types).1 s.dirs).2).1 := by
   obtain ⟨pt, vt, st, nt⟩ := cloneTypes_ok h.size cfg hd s.types h (inv_self h)
   have stT := fun chk => cloneTypes_step cfg hd chk h s.types
@@ -335,33 +337,38 @@ theorem clone_start_wfs (cfg : Cfg) (hd : cfg.deepClone = true) (s : Schema) (h 
     obtain ⟨t, ht, _⟩ := (typeShape_iff _ h e.2).mp (w.types e he)
     simp [ht]
   have hP : ∀ e, e ∈ (replaceTypes cfg (cloneRegistry cfg s h) false (cloneTypes cfg h s.types).2).1 →
-      typeShape (fun _ => true) (cloneDirs cfg (cloneTypes cfg h s.types).1 s.dirs).1 e.2 = true ∧
+      typeShape chk' (cloneDirs cfg (cloneTypes cfg h s.types).1 s.dirs).1 e.2 = true ∧
       nameOK (cloneDirs cfg (cloneTypes cfg h s.types).1 s.dirs).1 e = true ∧
       protLeaf (cloneDirs cfg (cloneTypes cfg h s.types).1 s.dirs).1 e = true := by
-    apply replaceTypes_pred cfg (fun e => typeShape (fun _ => true) (cloneDirs cfg (cloneTypes cfg h s.types).1 s.dirs).1 e.2 = true ∧
+    apply replaceTypes_pred cfg (fun e => typeShape chk' (cloneDirs cfg (cloneTypes cfg h s.types).1 s.dirs).1 e.2 = true ∧
       nameOK (cloneDirs cfg (cloneTypes cfg h s.types).1 s.dirs).1 e = true ∧
       protLeaf (cloneDirs cfg (cloneTypes cfg h s.types).1 s.dirs).1 e = true)
     · intro x hx a' ea
       obtain ⟨⟨e0, _, h1x, hnp⟩, h2⟩ := estT x hx
       obtain ⟨hsh, hnm⟩ := h2 a' ea
-      refine ⟨typeShape_mono (fun _ _ => rfl) _ _ (typeShape_keep (stD _) a' hsh), nameOK_keep (stD (fun _ => true)) _ hnm, ?_⟩
+      refine ⟨typeShape_mono hm _ _ (typeShape_keep (stD _) a' hsh), nameOK_keep (stD chk') _ hnm, ?_⟩
       simp [protLeaf, ← h1x, hnp]
     · intro e0 he0
       have hes := hsub e0 he0
       by_cases hp : isProtected e0.1 = true
       · left
-        have hl := protLeaf_keep (stAll (fun _ => true)) e0 (w.prot e0 hes)
-        exact ⟨typeShape_prot _ _ e0 hp hl, nameOK_keep (stAll (fun _ => true)) e0 (w.names e0 hes), hl⟩
+        have hl := protLeaf_keep (stAll chk') e0 (w.prot e0 hes)
+        exact ⟨typeShape_prot _ _ e0 hp hl, nameOK_keep (stAll chk') e0 (w.names e0 hes), hl⟩
       · right
         have hnp : isProtected e0.1 = false := by simpa using hp
         exact nt e0.1 e0.2 hes hnp (readType_lt (hreadable e0 hes)) (hreadable e0 hes)
   simp only [replaceCore]
   refine ⟨fun e0 he0 => (hP e0 he0).1, ?_, fun e0 he0 => (hP e0 he0).2.1, fun e0 he0 => (hP e0 he0).2.2,
     replaceTypes_nodup cfg _ _ _ hnd⟩
-  apply replaceDirs_pred (fun e => dirShape (fun _ => true) (cloneDirs cfg (cloneTypes cfg h s.types).1 s.dirs).1 e.2 = true)
+  apply replaceDirs_pred (fun e => dirShape chk' (cloneDirs cfg (cloneTypes cfg h s.types).1 s.dirs).1 e.2 = true)
   · intro x hx a' ea
-    exact dirShape_mono (fun _ _ => rfl) _ _ (estD x hx a' ea)
+    exact dirShape_mono hm _ _ (estD x hx a' ea)
   · intro e0 he0; simp at he0
+
+theorem clone_start_wfs (cfg : Cfg) (hd : cfg.deepClone = true) (s : Schema) (h : Heap) (hcl : closedB h s = true) (w : WFs (refOK s.types) h s) :
+    WFs (fun _ => true) (cloneDirs cfg (cloneTypes cfg h s.types).1 s.dirs).1
+      (replaceCore cfg { types := cloneRegistry cfg s h, dirs := [], query := s.query, mutation := s.mutation, subscription := s.subscription, dres := none } (cloneTypes cfg h s.types).2 (cloneDirs cfg (cloneTypes cfg h s.types).1 s.dirs).2).1 :=
+  clone_start_wfs_gen (fun _ => true) cfg hd s h hcl w (fun _ _ => rfl)
 
 /-- `Schema.clone` (deep copy, all types kept, accumulated flag) of a closed well-formed schema is closed and well-formed -/
 theorem clone_closed_wfs (cfg : Cfg) (hd : cfg.deepClone = true) (hk : cfg.keepAllTypes = true) (hacc : cfg.accumulateBusted = true)
